@@ -1,6 +1,7 @@
 package vsim
 
 import (
+	"strings"
 	"context"
 	"fmt"
 	"time"
@@ -229,7 +230,40 @@ func famRelay(w *World) {
 		w.checkTransparent(p.relayed, p.direct)
 	}
 	w.checkRelayWire(t)
+	for _, r := range w.Calls {
+		w.checkSlowDropTarget(r, t)
+	}
 	w.quiesceRelay(t, maxTimeout)
+}
+
+// checkSlowDropTarget: a relay that cannot queue a request frame for the
+// destination (send buffer full) fails THAT call with "relay-dest-conn-slow".
+// A caller that is told so although the relay re-emitted its request
+// completely - and that never sent a cancel - was failed in place of another
+// call (C08: the caller receives what the destination produced for ITS call;
+// C04: frames for an id concern that call only).
+func (w *World) checkSlowDropTarget(r *CallRec, t *relayTopo) {
+	if r.Err == nil || len(t.relays) != 1 || r.Cancelled || r.Spec.CancelAfter > 0 || r.Appended || !strings.HasPrefix(r.Spec.Via, "relay") {
+		return
+	}
+	if !strings.Contains(tchannel.GetSystemErrorMessage(r.Err), "relay-dest-conn-slow") {
+		return
+	}
+	w.eval("C08.slow-drop-target")
+	rn := t.relays[0].Name
+	var relayReq *wireMsg
+	for _, m := range w.wireOr.reqByTag[r.Spec.Tag] {
+		if m.emitter == rn {
+			relayReq = m
+		}
+	}
+	if relayReq == nil {
+		return // the relay did not get the whole request through: this is the call it dropped
+	}
+	d := fmt.Sprintf("call %s was failed by relay %s with %q although the relay re-emitted its request completely (%d frames, id %d on link%d) and the caller sent no cancel: the slow-connection drop of another call was charged to it",
+		r.Spec.Tag, rn, trunc(tchannel.GetSystemErrorMessage(r.Err), 60), relayReq.frames, relayReq.first.F.ID, relayReq.link.ID)
+	w.violate("C08", "relay-failed-wrong-call", "%s", d)
+	w.violate("C04", "relay-failed-wrong-call", "%s", d)
 }
 
 func (w *World) quiesceRelay(t *relayTopo, maxTimeout time.Duration) {
